@@ -2207,9 +2207,9 @@ GROUP_IMPORTS = {'Std': ['Fc.Kernel'], 'Grp': ['FcGen.KSrcStd', 'FcGen.KSrcPS', 
                  'Fam3': ['FcGen.KSrcStd', 'FcGen.KSrcPS', 'Fc.RustEnv'],
                  'Fam4': ['FcGen.KSrcStd', 'FcGen.KSrcPS', 'Fc.RustEnv'],
                  'Fam5': ['FcGen.KSrcStd', 'FcGen.KSrcPS', 'Fc.RustEnv']}
-GROUP_DEPS = {'Grp': ['Std', 'PS'], 'Fam': ['Std', 'PS', 'Idx'], 'GrpPoll': ['Grp'], 'RaceV': ['Fam'], 'MergeV': ['Fam'], 'Fam2': ['Std', 'PS'], 'Fam3': ['Std', 'PS'], 'Fam4': ['Std', 'PS'], 'Fam5': ['Std', 'PS']}
+GROUP_DEPS = {'Grp': ['Std', 'PS'], 'Fam': ['Std', 'PS', 'Idx'], 'GrpPoll': ['Grp'], 'RaceV': ['Fam'], 'MergeV': ['Fam'], 'JoinV': ['Fam2'], 'ChainV': ['Fam5', 'Fam4'], 'Fam2': ['Std', 'PS'], 'Fam3': ['Std', 'PS'], 'Fam4': ['Std', 'PS'], 'Fam5': ['Std', 'PS']}
 # groups of tie theorems that have no generated file of their own (they talk about functions of another group's file)
-VIRTUAL_GROUPS = {'GrpPoll': ['GrpF', 'GrpS'], 'RaceV': ['RaceV'], 'MergeV': ['MergeV']}
+VIRTUAL_GROUPS = {'GrpPoll': ['GrpF', 'GrpS'], 'RaceV': ['RaceV'], 'MergeV': ['MergeV'], 'JoinV': ['JoinV'], 'ChainV': ['ChainV']}
 # src/utils/wakers/vec/waker_vec.rs (std) is Arc / closure glue around the readiness set: modelled by hand here —
 # a table of `len` sub-wakers next to the shared set; `resize` resizes both
 WAKERVEC_PRELUDE = '''/-- hand-written model of `WakerVec` (utils/wakers/vec/waker_vec.rs, std): `nwakers` sub-wakers + the shared set -/
@@ -2249,6 +2249,8 @@ REQUIRED = {
     'GrpPoll': ['GrpF.FutureGroup.poll_next_inner', 'GrpS.StreamGroup.poll_next_inner'],
     'RaceV': ['RaceV.Race.poll'],
     'MergeV': ['MergeV.Merge.poll_next'],
+    'JoinV': ['JoinV.Join.poll', 'JoinV.Join.drop', 'JoinV.Join.new'],
+    'ChainV': ['ChainV.Chain.poll_next'],
     'Fam2': ['JoinV.Join.poll', 'JoinV.Join.drop', 'JoinV.Join.new'],
     'Fam3': ['TryJoinV.TryJoin.poll', 'TryJoinV.TryJoin.drop', 'TryJoinV.TryJoin.new'],
     'Fam4': ['ZipV.Zip.poll_next', 'ZipV.Zip.drop', 'ZipV.Zip.new'],
